@@ -43,11 +43,23 @@ func describeTag(tag string) string {
 	}
 }
 
+// kindMismatch tells if a node carries an explicit tag that contradicts what it really is,
+// example: `rules: !!seq foo` is a scalar tagged as a sequence.
+func kindMismatch(node *yaml.Node, kind yaml.Kind) bool {
+	if node.Alias != nil {
+		node = node.Alias
+	}
+	if node.ShortTag() == nullTag {
+		return false
+	}
+	return node.Kind != kind
+}
+
 func parseGroups(doc *yaml.Node, schema Schema, offsetLine, offsetColumn int, contentLines []string) (groups []Group, _ ParseError) {
 	names := map[string]struct{}{}
 
 	for _, node := range unpackNodes(doc) {
-		if !isTag(node.ShortTag(), mapTag) {
+		if !isTag(node.ShortTag(), mapTag) || kindMismatch(node, yaml.MappingNode) {
 			return nil, ParseError{
 				Line: node.Line,
 				Err:  fmt.Errorf("top level field must be a groups key, got %s", describeTag(node.ShortTag())),
@@ -75,7 +87,7 @@ func parseGroups(doc *yaml.Node, schema Schema, offsetLine, offsetColumn int, co
 				}
 			}
 			hasGroups = true
-			if !isTag(entry.val.ShortTag(), seqTag) {
+			if !isTag(entry.val.ShortTag(), seqTag) || kindMismatch(entry.val, yaml.SequenceNode) {
 				return nil, ParseError{
 					Line: entry.key.Line,
 					Err:  fmt.Errorf("groups value must be a %s, got %s", describeTag(seqTag), describeTag(entry.val.ShortTag())),
@@ -98,7 +110,7 @@ func parseGroups(doc *yaml.Node, schema Schema, offsetLine, offsetColumn int, co
 }
 
 func parseGroup(node *yaml.Node, schema Schema, offsetLine, offsetColumn int, contentLines []string) (group Group) {
-	if !isTag(node.ShortTag(), mapTag) {
+	if !isTag(node.ShortTag(), mapTag) || kindMismatch(node, yaml.MappingNode) {
 		group.Error = ParseError{
 			Line: node.Line,
 			Err:  fmt.Errorf("group must be a %s, got %s", describeTag(mapTag), describeTag(node.ShortTag())),
@@ -177,7 +189,7 @@ func parseGroup(node *yaml.Node, schema Schema, offsetLine, offsetColumn int, co
 				return group
 			}
 		case "labels":
-			if entry.val.ShortTag() != mapTag {
+			if entry.val.ShortTag() != mapTag || kindMismatch(entry.val, yaml.MappingNode) {
 				group.Error = ParseError{
 					Line: entry.key.Line,
 					Err:  fmt.Errorf("group labels must be a %s, got %s", describeTag(mapTag), describeTag(entry.val.ShortTag())),
@@ -217,7 +229,7 @@ func parseGroup(node *yaml.Node, schema Schema, offsetLine, offsetColumn int, co
 			}
 			group.Labels = newYamlMap(entry.key, labelsNode, offsetLine, offsetColumn, contentLines)
 		case "rules":
-			if !isTag(entry.val.ShortTag(), seqTag) {
+			if !isTag(entry.val.ShortTag(), seqTag) || kindMismatch(entry.val, yaml.SequenceNode) {
 				group.Error = ParseError{
 					Line: entry.key.Line,
 					Err:  fmt.Errorf("rules must be a %s, got %s", describeTag(seqTag), describeTag(entry.val.ShortTag())),
@@ -284,7 +296,7 @@ func parseGroup(node *yaml.Node, schema Schema, offsetLine, offsetColumn int, co
 }
 
 func parseRuleStrict(rule *yaml.Node, contentLines []string) Rule {
-	if !isTag(rule.ShortTag(), mapTag) {
+	if !isTag(rule.ShortTag(), mapTag) || kindMismatch(rule, yaml.MappingNode) {
 		return Rule{
 			Error: ParseError{
 				Line: rule.Line,
